@@ -43,10 +43,12 @@ def valid_name(s, item):
     return not any(ord(c) <= 0x20 or 0x7f <= ord(c) < 0xa0 for c in s)
 
 
-def name_tok(s, item):
+def name_tok(s, item, lenient=False):
+    """lenient (mkblock / mkframe only): the call is the `_internal(..., lenient = 1)` one — no validity check, the code is still
+    normalised (what the parser calls after its error callback accepted CIF_INVALID_BLOCKCODE / CIF_INVALID_FRAMECODE)"""
     if s is None:
         return "~"
-    return "%s/%s/%d" % (hexs(s), hexs(norm(s)), 1 if valid_name(s, item) else 0)
+    return "%s/%s/%d%s" % (hexs(s), hexs(norm(s)), 1 if valid_name(s, item) else 0, "/L" if lenient else "")
 
 
 def cat_tok(c):
@@ -195,7 +197,7 @@ class History:
         if not self.cifs[c]:
             return False
         b = self.r.choice(list(self.cifs[c].values()))
-        variant = self.r.choice([x for x in CODES_OK if norm(x) == b.key])
+        variant = self.r.choice([x for x in CODES_OK + CODES_BAD if norm(x) == b.key])
         self.op("getblock", c, name_tok(variant, False))
         self.chs.append(b)
         return True
@@ -217,12 +219,68 @@ class History:
         self.chs.append(f)
         return True
 
-    def g_getframe(self):
-        hs = [h for h in self.live_chs() if self.chs[h].frames]
+    def g_mkblock_len(self):
+        """lenient creation (cif_create_block_internal, lenient = 1): any code that is not in use, valid or not"""
+        c = self.r.choice(self.live_cifs())
+        if self.in_tx(c) or len(self.cifs[c]) >= 5:
+            return False
+        pool = [x for x in CODES_BAD * 2 + CODES_OK if norm(x) not in self.cifs[c]]
+        if not pool:
+            return False
+        code = self.r.choice(pool)
+        self.op("mkblock", c, name_tok(code, False, True))
+        b = SCont(c, None, code, 0)
+        self.cifs[c][b.key] = b
+        self.chs.append(b)
+        return True
+
+    def g_mkframe_len(self):
+        hs = self.live_chs()
         if not hs:
             return False
         h = self.r.choice(hs)
-        f = self.r.choice(list(self.chs[h].frames.values()))
+        p = self.chs[h]
+        if self.in_tx(p.cif) or p.depth >= 3 or len(p.frames) >= 4:
+            return False
+        pool = [x for x in CODES_BAD * 2 + CODES_OK if norm(x) not in p.frames]
+        if not pool:
+            return False
+        code = self.r.choice(pool)
+        self.op("mkframe", h, name_tok(code, False, True))
+        f = SCont(p.cif, p, code, p.depth + 1)
+        p.frames[f.key] = f
+        self.chs.append(f)
+        return True
+
+    def f_mk_len(self):
+        """a lenient creation that must fail: the (normalised) code is in use — also an invalid one created leniently before"""
+        hs = [h for h in self.live_chs() if self.chs[h].frames]
+        cs = [c for c in self.live_cifs() if self.cifs[c] and not self.in_tx(c)]
+        if hs and (not cs or self.r.random() < 0.5):
+            h = self.r.choice(hs)
+            p = self.chs[h]
+            if self.in_tx(p.cif):
+                return False
+            f = self.r.choice(list(p.frames.values()))
+            code = self.r.choice([x for x in CODES_OK + CODES_BAD if norm(x) == f.key])
+            self.op("mkframe", h, name_tok(code, False, True))
+        elif cs:
+            c = self.r.choice(cs)
+            b = self.r.choice(list(self.cifs[c].values()))
+            code = self.r.choice([x for x in CODES_OK + CODES_BAD if norm(x) == b.key])
+            self.op("mkblock", c, name_tok(code, False, True))
+        else:
+            return False
+        self.chs.append(None)
+        return True
+
+    def g_getframe(self):
+        # (a frame created leniently under an invalid code cannot be looked up: cif_container_get_frame validates)
+        hs = [h for h in self.live_chs() if any(valid_name(f.orig, False) for f in self.chs[h].frames.values())]
+        if not hs:
+            return False
+        h = self.r.choice(hs)
+        f = self.r.choice([f for f in self.chs[h].frames.values() if valid_name(f.orig, False)])
         variant = self.r.choice([x for x in CODES_OK if norm(x) == f.key])
         self.op("getframe", h, name_tok(variant, False))
         self.chs.append(f)
@@ -1071,10 +1129,10 @@ class History:
             self.op("itabort", it)
         return True
 
-    GOOD_KINDS = (["g_mkblock"] * 3 + ["g_getblock"] * 2 + ["g_mkframe"] * 3 + ["g_getframe"] * 2 + ["g_mkloop"] * 6 + ["g_setval_new"] * 4
+    GOOD_KINDS = (["g_mkblock"] * 3 + ["g_mkblock_len", "g_mkframe_len"] + ["g_getblock"] * 2 + ["g_mkframe"] * 3 + ["g_getframe"] * 2 + ["g_mkloop"] * 6 + ["g_setval_new"] * 4
                   + ["g_setval_old"] * 3 + ["g_addpkt"] * 8 + ["g_additem"] * 2 + ["g_rmitem"] * 3 + ["g_query"] * 6 + ["g_setcat"]
                   + ["g_prune", "g_ldestroy", "g_cdestroy", "g_cdestroy", "g_newcif", "g_delcif"] + ["g_iter"] * 3 + ["g_cross"] * 4 + ["g_session"] * 6 + ["g_scalar_nopkt"] + ["g_iter_sp"] * 4 + ["g_emptied"] * 3)
-    FAIL_KINDS = (["f_mkblock"] * 2 + ["f_mkframe"] * 2 + ["f_lookup"] * 2 + ["f_mkloop"] * 6 + ["f_addpkt"] * 6 + ["f_item"] * 5
+    FAIL_KINDS = (["f_mkblock"] * 2 + ["f_mk_len"] + ["f_mkframe"] * 2 + ["f_lookup"] * 2 + ["f_mkloop"] * 6 + ["f_addpkt"] * 6 + ["f_item"] * 5
                   + ["f_setcat"] * 2 + ["f_stale_loop"] * 2 + ["f_iter_misuse"])
 
 
@@ -1121,7 +1179,7 @@ def parse_request(req):
         x = tok()
         if x == "~":
             return None
-        o, k, v = x.split("/")
+        o, k, v = x.split("/")[:3]          # a 4th field "L" marks a lenient creation (see name_tok)
         return ("".join(map(chr, unhexs(o))), "".join(map(chr, unhexs(k))), v == "1")
 
     def cat():
